@@ -354,6 +354,11 @@ class FlowDomain(Domain):
                     # the callee requests a lock this task holds: it does not return
                     return None
         mine = frozenset(x for x in tok_before if x[0] in ('F', 'OH'))
+        # a helper that wrote the slices whose dirty flags this frame cleared (the write phase split off into a callee)
+        wrote = {x[2] for x in tok_exit if len(x) > 2 and x[0] == 'F' and x[1] == 'WROTE'}
+        if wrote and any(len(x) > 2 and x[0] == 'F' and x[1] == 'CLEANPENDING' and x[2] in wrote for x in mine):
+            mine = frozenset(x for x in mine if not (len(x) > 2 and x[0] == 'F' and x[1] == 'CLEANPENDING' and x[2] in wrote)) \
+                | {('F', 'WROTE', c) for c in wrote}
         out = frozenset(x for x in tok_exit if x[0] not in ('F', 'OH')) | mine
         if not any(x[0] == 'U' for x in tok_exit) and any(x[0] == 'U' for x in tok_before):
             # a barrier completed inside the callee
@@ -645,11 +650,26 @@ class FlowDomain(Domain):
                     if has_vec and has_ent:
                         res = True
             if res:
-                res = any(t.get('fn', '').endswith('Future::poll') and any(
-                    fu.kind == 'async_fn' and self._writes_table_arg(fu.path) for fu in self.p.futs(t['a'][0], ()))
-                    for _bi, t in body.calls())
+                res = self._polls_table_writer(body, 2)
             self._tvc[key] = res
         return self._tvc[key]
+
+    def _polls_table_writer(self, body, depth):
+        """the body awaits a write of a table argument, directly or in an async helper it awaits"""
+        for _bi, t in body.calls():
+            if not t.get('fn', '').endswith('Future::poll'):
+                continue
+            for fu in self.p.futs(t['a'][0], ()):
+                if fu.kind != 'async_fn':
+                    continue
+                if self._writes_table_arg(fu.path):
+                    return True
+                if depth > 0:
+                    for co in self.f.coroutines_of(fu.path):
+                        cb = self.f.body(co)
+                        if cb is not None and cb.path != body.path and self._polls_table_writer(cb, depth - 1):
+                            return True
+        return False
 
     def _writes_table_arg(self, fn):
         """fn builds a write buffer from Table::as_ptr of one of its parameters."""
@@ -682,9 +702,10 @@ class FlowDomain(Domain):
         for fu in futs:
             if fu.kind == 'async_fn' and self._writes_table_arg(fu.path):
                 for (sb, st_) in ip.creation_sites(fr.body, fu.path):
+                    sfr = ip.site_frame(fr, st_)
                     for a in st_['args']:
                         if a['k'] in ('copy', 'move'):
-                            c = self._table_of_operand(fr, a)
+                            c = self._table_of_operand(sfr, a)
                             if c:
                                 tok = frozenset(x for x in tok if x != ('F', 'CLEANPENDING', c)) | {('F', 'WROTE', c)}
                                 break
@@ -705,7 +726,8 @@ class FlowDomain(Domain):
                 # grow_reftable joins the write of its private refblock with the
                 # zeroing of the *rest* of the slice range: disjoint ranges
                 for (sb, st_) in ip.creation_sites(fr.body, fut_tbl[0].path):
-                    at = self.argtags(ip, fr, tok, tags, st_, None)
+                    sfr = ip.site_frame(fr, st_)
+                    at = self.argtags(ip, sfr, tok, tags if sfr is fr else {}, st_, None)
                     if 'LOCALTBL' in at:
                         private = True
                 ok = private
